@@ -66,6 +66,9 @@ def write_dataset(d, spec):
     d = Path(d)
     d.mkdir(parents=True, exist_ok=True)
     names = ALF_NAMES if spec.get('alf') else KS_NAMES
+    if spec.get('alf') and spec.get('spike_times_sec') is None:
+        # ALF-named datasets give their spike times in seconds (spikes.times.npy) next to the samples
+        spec = dict(spec, spike_times_sec=[s / float(spec['sample_rate']) for s in spec['spike_samples']])
     dtypes = dict(DEFAULT_DTYPES)
     dtypes.update(spec.get('dtypes', {}))
     for key, fname in names.items():
